@@ -256,3 +256,87 @@ def run(rep, programs):
     r_slot_tables(rep, prog)
     r_request_element(rep, prog)
     r_classing_complete(rep, prog)
+
+
+def r_classing_table(rep, prog):
+    """The class list a configuration produces reaches the allocator through Classing::new (writer) and Classing::classes (reader):
+    the reader returns the first `classes_len` positions, so the writer has to put the i-th given class at position i."""
+    rule = "R-CLASSING-TABLE"
+    rep.rule(rule, "Classing::new stores the given list in the first classes.len() positions, in order, and records that length; "
+                   "Classing::classes returns exactly classes_raw[..classes_len]")
+    nb = lib.need_body(prog, "llfree::Classing::new")
+    cb = lib.need_body(prog, "llfree::Classing::classes")
+    rep.saw(nb.name, cb.name)
+    tm = T.Terms(nb, prog)
+    LEN = ("call", "slice::len", (("p", "classes"),))
+    cps = lib.find_calls(nb, "slice::copy_from_slice")
+    decided = False
+    if cps:
+        decided = True
+        bi, t = cps[0]
+        dst = T.canon(tm.operand(t["args"][0]))
+        src = T.canon(tm.operand(t["args"][1]))
+        rng = [x for x in T.walk(dst) if x[0] == "agg" and str(x[1]).startswith("adt:core::ops::range::")]
+        good = src == ("p", "classes") and len(rng) == 1 and rng[0][1].startswith("adt:core::ops::range::RangeTo::") and rng[0][2] == (LEN,)
+        if not good and len(rng) == 1 and rng[0][1].startswith("adt:core::ops::range::Range::") and len(rng[0][2]) == 2:
+            good = src == ("p", "classes") and rng[0][2][0] == ("c", 0) and rng[0][2][1] == LEN
+        rep.check(good, rule, "Classing::new|prefix-copy", "classes_raw[..classes.len()].copy_from_slice(classes)",
+                  "Classing::new does not copy the given class list into the first classes.len() positions of the table", t["span"])
+    else:
+        # element-wise writes: the position must be the position in the given list, not something read from the element
+        writes = []
+        for bi, si, s in nb.stmts():
+            if s["k"] == "assign" and any(e["k"] in ("index", "cindex") for e in (s["place"].get("p") or [])):
+                writes.append((bi, si, s))
+        for bi, si, s in writes:
+            idx = [e for e in s["place"]["p"] if e["k"] == "index"]
+            if not idx:
+                continue
+            it = tm.local(idx[0]["l"])
+            nexts = [x for x in T.walk(it) if x[0] == "call" and str(x[1]).endswith("::next")]
+            from_elem = any(x[0] == "f" and any(y[0] == "call" and str(y[1]).endswith("::next") and "Enumerate" not in str(y[1])
+                                                 and "ops::range::Range" not in str(y[1]) for y in T.walk(x[1])) for x in T.walk(it))
+            counter = bool(nexts) and all("Enumerate" in str(x[1]) or "ops::range::Range" in str(x[1]) for x in nexts)
+            decided = True
+            if counter and not from_elem:
+                rep.check(True, rule, "Classing::new|position", "the table position is the position in the given list")
+            elif from_elem or not nexts:
+                rep.violation(rule, "Classing::new|position",
+                              "the table position is computed from the element (%s), not from its position in the given list: "
+                              "Classing::classes returns the first classes_len positions, so sparse or duplicate class ids are "
+                              "lost or replaced by filler entries" % T.show(it)[:100], s.get("span"))
+            else:
+                decided = False
+    if not decided:
+        rep.check(True, rule, "Classing::new|prefix-copy", "undecided: the table is filled in a form the rule does not know")
+        rep.note("%s: Classing::new fills the table in an unrecognised form; order/prefix agreement undecided" % rule)
+    # the recorded length
+    good = False
+    for bi, si, rv in lib.assignments_to_return(nb):
+        t = tm.call_term(bi) if si == "term" else tm.rvalue(rv)
+        c = T.canon(t)
+        if c[0] == "agg" and c[1].startswith("adt:llfree::Classing") and len(c[2]) >= 2:
+            good = c[2][1] == LEN
+    rep.check(good, rule, "Classing::new|len", "classes_len = classes.len()", "Classing::new does not record the length of the given list", nb.span)
+    ctm = T.Terms(cb, prog)
+    good = False
+    for bi, si, rv in lib.assignments_to_return(cb):
+        t = ctm.call_term(bi) if si == "term" else ctm.rvalue(rv)
+        c = T.canon(t)
+        rng = [x for x in T.walk(c) if x[0] == "agg" and str(x[1]).startswith("adt:core::ops::range::")]
+        raw = any(x == ("f", ("p", "self"), "classes_raw") for x in T.walk(c))
+        if raw and len(rng) == 1:
+            r = rng[0]
+            ln = ("f", ("p", "self"), "classes_len")
+            good = (r[1].startswith("adt:core::ops::range::RangeTo::") and r[2] == (ln,)) or (
+                r[1].startswith("adt:core::ops::range::Range::") and r[2] == (("c", 0), ln))
+    rep.check(good, rule, "Classing::classes|prefix", "returns classes_raw[..classes_len]",
+              "Classing::classes does not return the first classes_len positions of the table", cb.span)
+
+
+_run_c19 = run
+
+
+def run(rep, programs):  # noqa: F811
+    _run_c19(rep, programs)
+    r_classing_table(rep, programs["eval"])
